@@ -101,6 +101,9 @@ func coreSkeletons(tier string) []NamedSkel {
 		{"L(S[L])", sl(ss("g1", sp(KStr), "g2", sl(sp(KInt))))},
 		// keys that are Go identifiers beginning with a non-ASCII upper-case letter (exported as they stand)
 		{"S2uni", ss("Émail", sp(KStr), "Ünits", sr(ss("Ñame", sp(KStr))))},
+		// pointers below a record / a list that is itself behind a pointer (two pointer hops on one path)
+		{"R(S[R])", sr(ss("g1", sr(sp(KStr)), "g2", sp(KInt)))},
+		{"R(L(R))", sr(sl(sr(sp(KInt))))},
 	}
 	if tier == "thorough" {
 		list = append(list,
